@@ -16,8 +16,19 @@ Definition recv_started (rounds : list round) : bool :=
 (* frames the client's LIBRARY may hold besides the messages it has delivered: the one frame a
    Header() call peeks, and on a single-response method the two frames a receive consumes (the
    response and the probe for the end of the stream) *)
+(* did the handler have headers pending when it first sent a message?  Then the first frame is the
+   header frame and that is what a Header() call takes; otherwise the first frame is a message *)
+Fixpoint headers_before_first_send (c : list (actor * op * res)) : bool :=
+  match c with
+  | [] => false
+  | (_, HSend _, _) :: _ => false
+  | (_, HSetHeader (_ :: _), RNil) :: _ => true
+  | (_, HSendHeader (_ :: _), RNil) :: _ => true
+  | _ :: r => headers_before_first_send r
+  end.
+
 Definition client_slack (resp_stream : bool) (rounds : list round) : Z :=
-  (if header_called (completed rounds) then 1 else 0) +
+  (if header_called (completed rounds) && negb (headers_before_first_send (completed rounds)) then 1 else 0) +
   (if negb resp_stream && recv_started rounds then 2 else 0).
 
 Definition bound_ok (resp_stream : bool) (rounds : list round) : bool :=
